@@ -23,6 +23,10 @@ Spellings(d) == {[kind |-> "int", v |-> d], [kind |-> "td", v |-> d], [kind |-> 
                  [kind |-> "list", items |-> <<[t |-> "int", v |-> d \div 3600, s |-> ""], [t |-> "str", v |-> 0, s |-> "h"]>>]} ELSE {})
 SpellingsAgree == \A d \in DURS : \A sp \in Spellings(d) : Secs(sp) = d
 IsoAgrees == IsoSecs(s) # Reject => IsoSecs(s) \in Nat
+\* a formatted duration reads back as the same number of seconds; without days it is also an accepted period spelling
+FormatRoundTrip == \A d \in DURS \cup {59, 61, 3599, 3661, 86399, 86400, 86401, 90061, 172800, 1000000} :
+                      /\ IsoSecsD(FormatIso(d)) = d
+                      /\ (d > 0 /\ d < 86400) => IsoSecs(FormatIso(d)) = d
 Malformed == /\ Secs([kind |-> "list", items |-> <<[t |-> "float", v |-> 1, s |-> ""], [t |-> "str", v |-> 0, s |-> "h"]>>]) = Reject
              /\ Secs([kind |-> "list", items |-> <<[t |-> "int", v |-> 1, s |-> ""]>>]) = Reject
              /\ Secs([kind |-> "list", items |-> <<[t |-> "int", v |-> 1, s |-> ""], [t |-> "str", v |-> 0, s |-> "min"]>>]) = Reject
